@@ -291,9 +291,11 @@ def run(rep):
                 counter_context(rep, a, "matrix", "optimiser::shake_1")
             if ps == "Expression::BooleanGroup(BoolSym::Or, $expressions)":
                 # rows built from a conjunction: cells must follow the conjunction's order
+                mats0 = [x for x in walk(mx.body) if x.get("k") == "Adt" and x["adt"] == "parser::Expression" and x["variant"] == "Matrix"]
+                columns_id = q.var_id({f_["name"]: f_["e"] for f_ in mats0[0]["fields"]}["0"]) if len(mats0) == 1 else None
                 for n, path in walk_with_path(a["body"]):
-                    if n.get("k") == "For" and show(n["iter"]) == "Iterator::enumerate(<impl [T]>::iter(Deref::deref(columns)))":
-                        uses_lookup = any(call_is(x, "::remove") and show(x["args"][0]) == "lookup" for x in walk(n["body"]))
+                    if n.get("k") == "For" and columns_id is not None and q.loop_over(n)[0] == columns_id and q.loop_over(n)[2] is not None:
+                        uses_lookup = any(call_is(x, "::remove") and "HashMap<" in str(peel(x["args"][0]).get("ty", "")) for x in walk(n["body"]))
                         if uses_lookup:
                             rep.bad("ORDER-AND", "ORDER-AND/matrix/row-cells-in-column-order", n["sp"],
                                     "the cells of a row built from an and-group follow the and-group's own operand order",
@@ -342,6 +344,13 @@ def run(rep):
         okfb = len(fb) == 2 and all([pat_str(a["pat"]) for a in x["arms"]] == ["Result::Ok($rewritten)", "Result::Err(_)"] for x in fb) \
             and all(re.fullmatch(r"Search::Regex(Set)?\(regex, insensitive\)", show(x["arms"][1]["body"])) for x in fb)
         rep.check(okfb, "REWRITE-CONST", "REWRITE-CONST/fallback", rs.sp, "if the stripped pattern does not compile the original matcher is kept", "")
+        # the rebuilt set has one pattern per pattern of the old set, in order (all()/of() count them)
+        sloops = [n for n in walk(rs.body) if n.get("k") == "For" and any(call_is(x, "RegexSet::patterns") for x in walk(n["iter"]))]
+        oksz = False
+        if len(sloops) == 1:
+            pushes = [x for x in walk(sloops[0]["body"]) if call_is(x, "::push")]
+            oksz = len(pushes) == 1 and q.every_cycle_calls(sloops[0], lambda x: x is pushes[0]) and all(ex in ("fall", "continue") for ex, _ in q.flow(sloops[0]["body"], lambda x: False))
+        rep.check(oksz, "REWRITE-CONST", "REWRITE-CONST/set-size", rs.sp, "every pattern of a regex set is rewritten and pushed exactly once (no de-duplication, no skipping)", "%d loops over RegexSet::patterns" % len(sloops))
         m = unblock(rs.body)
         last = m["arms"][-1] if m.get("k") == "Match" else None
         rep.check(last is not None and strip_ref(last["pat"]).get("k") == "Wild" and show(last["body"]) == "search", "REWRITE-CONST", "REWRITE-CONST/others-untouched", rs.sp, "every other search kind is returned unchanged", "")
@@ -393,13 +402,15 @@ def run(rep):
                               "a conjunct is stored under its field only if no earlier conjunct uses that field (otherwise the row would silently lose one)", prev[:90] or "no guard before insert")
         rep.check(nins == 2, "LINEAR", "LINEAR/matrix/lookup-inserts", mx.sp, "two insert sites into lookup", str(nins))
     core.import_rules(rep, "c07", {"LOCKSTEP", "FLAG", "PLAIN-CASE"})
+    # the matrix rewrite replaces an or-group by a Matrix node: the solver's three Matrix evaluators against the or-of-ands tables
+    core.import_rules(rep, "c06", {"TRI-MATRIX"})
     # ---------------------------------------------------------------- OPT-PANIC (shared with C03)
     n = core.import_rules(rep, "c03", {"PANIC", "L-IDENT", "L-SHAPE", "L-MATRIX", "L-LOCKSTEP"})
     rep.describe("PANIC", "optimise/match never panic: every reachable panic-capable site is discharged (shared with C03)")
     rep.extra["imported_from_C03"] = n
     rep.floor("ORDER-AND", 12)
     rep.floor("COUNTER-CONTEXT", 5)
-    rep.floor("REWRITE-CONST", 4)
+    rep.floor("REWRITE-CONST", 5)
     rep.floor("LINEAR", 4)
     rep.exhaustive = False
     rep.assumptions.append("leaf predicates are oracles in the law evaluation; merging searches into automata / regex sets is covered by C07's LOCKSTEP/FLAG rules only at the alignment level")
